@@ -423,6 +423,8 @@ class RouterWorld(World):
             if isinstance(i, int) and 0 <= i < GRID_SIZE:
                 return False            # neighbours / bystanders are no base levels in the scenarios
             raise AnalysisBroken("router model: is_base_level(%r)" % (i,))
+        if name == "base_levels" and callee.cls.endswith("flow_graph_impl"):
+            return PyVec([CENTRE] if self.sc.centre_base else [])
         if name == "grid" and callee.cls.endswith("flow_graph_impl"):
             return self.grid
         if name == "nodes_indices":
